@@ -70,7 +70,12 @@ fn wrap_doc(c: &Cfg, d: &Deb822) -> Deb822 {
     let pcmp: Option<&dyn Fn(&Paragraph, &Paragraph) -> std::cmp::Ordering> =
         if c.pcmp == "p" { Some(&by_pkg) } else { None };
     let wp = |p: &Paragraph| wrap_para(c, p);
-    d.wrap_and_sort(pcmp, Some(&wp))
+    if c.fmt == "x" {
+        // no per-paragraph callback at all
+        d.wrap_and_sort(pcmp, None)
+    } else {
+        d.wrap_and_sort(pcmp, Some(&wp))
+    }
 }
 
 type Items = Vec<(String, String)>;
@@ -185,7 +190,7 @@ pub fn handle(op: &str, a: &[&str]) -> Option<Resp> {
                         ka.cmp(&kb)
                     });
                 }
-                if *level != "e" {
+                if *level != "e" && c.fmt != "x" {
                     for p in want.iter_mut() {
                         match c.ecmp.as_str() {
                             "k" => p.sort_by(|a, b| a.0.cmp(&b.0)),
@@ -240,7 +245,7 @@ pub fn handle(op: &str, a: &[&str]) -> Option<Resp> {
                 }
                 // continuation lines are indented by exactly the requested width
                 if fail.is_none() {
-                    if let Indentation::Spaces(n) = c.ind {
+                    if let (Indentation::Spaces(n), true) = (c.ind, c.fmt != "x") {
                         for l in o1.text.split('\n') {
                             if l.starts_with(' ') || l.starts_with('\t') {
                                 let w = l.len() - l.trim_start_matches(' ').len();
@@ -314,7 +319,41 @@ pub fn generate_c07(tier: &str, seed: u64, out: &mut Out) {
         "A: b\n# tail\n",
         "Long: aaaaaaaaaaaaaaaaaaaaaaaaaaaaaaaaaaaaaaaaaaaaaaaaaaaaaaaaaaaaaaaaaaaaaaaaaaaaaaaaaaaaaaaa\n",
         "É: x\n",
+        "Description: short\n \n long text\nPackage: x\n",
+        "A: b\n\t\n \n c\n",
+        "Section:\n net\n",
+        "Homepage:\n https://example.com/\nSource: x\n",
+        "B: 1\n\nA: 2",
+        "Package: b\nX: 1\n\nPackage: a",
+        "Package: b\n\n# c\nPackage: a\nY: 2",
     ];
+    // many paragraphs / entries with equal sort keys: an unstable sort shows only beyond ~20 elements
+    let mut many_paras = String::new();
+    let mut many_entries = String::new();
+    for i in 0..45 {
+        many_paras.push_str(&format!("Package: {}\nN: {}\n\n", ["c", "b", "a"][i % 3], i));
+        many_entries.push_str(&format!("{}: {}\n", ["K", "J", "I"][i % 3], ["v", "u"][i % 2]));
+    }
+    // document level without a paragraph callback (only sorting / blank-line normalisation)
+    for t in fixed.iter() {
+        for c in ["1/0/n/n/p/x", "1/0/n/n/n/x"] {
+            out.req("deb.wrap", &["d".to_string(), es(t), c.to_string()]);
+        }
+    }
+    for c in ["1/0/n/k/p/n", "4/0/n/v/p/n", "2/1/79/k/p/i"] {
+        out.req("deb.wrap", &["d".to_string(), es(&many_paras), c.to_string()]);
+        out.req("deb.wrap", &["d".to_string(), es(&many_entries), c.to_string()]);
+        out.req("deb.wrap", &["p".to_string(), es(&many_entries), c.to_string()]);
+    }
+    // every error-free short text over the character classes, under a few settings
+    let short = strings_upto(&crate::deb::ALPHABET, if thorough { 5 } else { 4 });
+    for t in short.iter() {
+        if deb822_lossless::Deb822::from_str(t).is_ok() {
+            for c in ["2/0/n/n/n/n", "1/1/10/k/p/i", "f/0/79/v/n/u"] {
+                out.req("deb.wrap", &["d".to_string(), es(t), c.to_string()]);
+            }
+        }
+    }
     let stride = if thorough { 1 } else { 6 };
     for (n, c) in cfgs.iter().enumerate() {
         for (m, t) in fixed.iter().enumerate() {
